@@ -1,10 +1,12 @@
 package props
 
 import (
+	"net/http"
 	"strings"
 
 	"verifharness/stubs"
 	"verifharness/verif"
+	"verifharness/world"
 
 	"github.com/volatiletech/authboss/v3"
 	"github.com/volatiletech/authboss/v3/otp/twofactor/sms2fa"
@@ -122,12 +124,25 @@ func C12_RecoveryCodeLogin() {
 func C12_SMSCodeLogin() {
 	verif.ReplayInInterpreter()
 	o := noGuards()
+	o.write500 = true // a failing hook ends in an error page (which releases the queued session changes)
 	f := newFlow(o)
 	v := symbolicValues()
 	verif.Assume(v.RecoveryCode == "")
 	pend, has := f.preS.Lookup2(sms2fa.SessionSMSPendingPID)
 	verif.Assume(verif.And(has, pend == pid0))
 	verif.Assume(!f.preS.Has(authboss.SessionKey))
+	// an application hook after the login that may take over the response or fail
+	hook := verif.Choice("app-after-auth-hook", 3)
+	f.w.AB.Events.After(authboss.EventAuth, func(wr http.ResponseWriter, r *http.Request, handled bool) (bool, error) {
+		switch hook {
+		case 1:
+			wr.WriteHeader(200) // the application answers the login itself
+			return true, nil
+		case 2:
+			return false, world.ErrInjected
+		}
+		return false, nil
+	})
 	_, panicked, _ := f.serve("POST /2fa/sms/validate", v, nil)
 	if panicked {
 		return
